@@ -378,6 +378,10 @@ class Gen:
             self.emit("m new 1 %d" % r.choice([0, 1, 4, 16, 64, 300]))
             for _ in range(r.choice([0, 0, 2, 5, 12, 40])):
                 self.emit("m insert 1 %d %d" % (self.key(universe), r.randrange(1000)))
+            if r.random() < 0.5:
+                # the destination's own settings must be replaced by the image's, whatever they were
+                self.emit("m setmhp 1 %d" % r.choice([6, 9, 12, 20, NOMAX]))
+                self.emit("m setmlf 1 %d" % dbits(r.choice([0.05, 0.3, 0.9] + ([0.0] if self.cfg.hashmode in (0, 4) else []))))
             self.emit("m lock 1")
             self.emit("m read 1 %d" % src)
             self.emit("m digest 1")
@@ -447,6 +451,7 @@ class RefMap:
         self.wires = {}
         self.fails = []
         self.pol = 0
+        self.read_settings = {}
         self.alloc = {}
         self.exists = set()
 
@@ -479,6 +484,7 @@ class RefMap:
             self.locked[tid] = False
             self.mlf[tid] = MLF_DEFAULT
             self.mhp[tid] = NOMAX
+            self.read_settings[tid] = False
             self.exists.add(tid)
             self.alloc[tid] = int(w[3]) if op == "newa" else 0
             return
@@ -652,17 +658,22 @@ class RefMap:
             expect(int(d["buckets"]) == 1 << hp, "bucket_count() != 2^hashpower()", "C05")
             expect(int(d["cap"]) == (1 << hp) * self.cfg.S, "capacity() != bucket_count()*slot_per_bucket()", "C05")
             expect(int(d["lf"]) == dbits(float(size) / float((1 << hp) * self.cfg.S)), "load_factor() != size()/capacity()", "C05")
-            expect(int(d["mlf"]) == self.mlf[tid], "minimum_load_factor() differs from the last accepted setting", "C10")
-            expect(int(d["mhp"]) == self.mhp[tid], "maximum_hashpower() differs from the last accepted setting", "C10")
-            expect(self.mhp[tid] == NOMAX or hp <= self.mhp[tid], "hashpower() exceeds maximum_hashpower()", "C10")
+            # settings that came with a stream image belong to the serialization round trip (C12)
+            sp = "C12" if self.read_settings.get(tid) else "C10"
+            tail = " (settings of the image read into this table)" if sp == "C12" else ""
+            expect(int(d["mlf"]) == self.mlf[tid], "minimum_load_factor() differs from the last accepted setting" + tail, sp)
+            expect(int(d["mhp"]) == self.mhp[tid], "maximum_hashpower() differs from the last accepted setting" + tail, sp)
+            expect(self.mhp[tid] == NOMAX or hp <= self.mhp[tid], "hashpower() exceeds maximum_hashpower()" + tail, sp)
             expect(size <= (1 << hp) * self.cfg.S, "more elements than capacity", "C05")
             self.last_hp = hp
         elif op == "setmlf":
             x = struct.unpack("<d", struct.pack("<Q", int(w[2])))[0]
             expect(0.0 <= x <= 1.0, "out-of-domain minimum load factor accepted", "C10")
             self.mlf[tid] = int(w[2])
+            self.read_settings[tid] = False
         elif op == "setmhp":
             self.mhp[tid] = int(w[2])
+            self.read_settings[tid] = False
         elif op in ("rehash", "reserve"):
             pass
         elif op == "inv":
@@ -731,6 +742,7 @@ class RefMap:
                 self.maps[tid] = dict(src[0])
                 self.mlf[tid] = src[1]
                 self.mhp[tid] = src[2]
+                self.read_settings[tid] = True
 
 
 def check_stream(cfg, exe, lines):
